@@ -83,6 +83,7 @@ TRANSLATORS = {
     "GenMirjalili": "gen_mirjalili",
     "GenHendrix": "gen_hendrix",
     "GenForest": "gen_forest",
+    "GenProbStruct": "gen_probstruct",
 }
 
 
